@@ -109,7 +109,10 @@ def specInsert (j : Json) : R Json := do
   let beforeK := (before.take k).flatten
   let afterK := (before.drop k).flatten
   let ordAfterPrefix := orderedPairs after (beforeK.flatMap (fun e => insOps.map (fun x => (e, x))))
-  let ordBeforeSuffix := allowShare || orderedPairs after (insOps.flatMap (fun x => afterK.map (fun e => (x, e))))
+  -- with several operations and EARLIEST an inserted operation may share the moment at the insertion point with what was
+  -- there, but it still may not end up behind a conflicting operation that came after the insertion point
+  let ordBeforeSuffix := if allowShare then notAfterPairs after (insOps.flatMap (fun x => afterK.map (fun e => (x, e))))
+    else orderedPairs after (insOps.flatMap (fun x => afterK.map (fun e => (x, e))))
   return Json.mkObj [("wf", jBool wf), ("conserve", jBool conserve), ("ord_existing", jBool (!chk || ordExisting)),
     ("ord_inserted", jBool (!chk || ordInserted)), ("ord_after_prefix", jBool (!chk || ordAfterPrefix)),
     ("ord_before_suffix", jBool (!chk || ordBeforeSuffix))]
@@ -139,8 +142,9 @@ def specPlace (j : Json) : R Json := do
   let ordInserted := orderedPairs after insPairs
   let ordAfterPrefix := items.all (fun it =>
     orderedPairs after ((before.take it.1).flatten.flatMap (fun e => (opsOf it.2.2.2).map (fun x => (e, x)))))
-  let ordBeforeSuffix := items.all (fun it => it.2.2.1 ||
-    orderedPairs after ((opsOf it.2.2.2).flatMap (fun x => (before.drop it.2.1).flatten.map (fun e => (x, e)))))
+  let ordBeforeSuffix := items.all (fun it =>
+    let ps := (opsOf it.2.2.2).flatMap (fun x => (before.drop it.2.1).flatten.map (fun e => (x, e)))
+    if it.2.2.1 then notAfterPairs after ps else orderedPairs after ps)
   return Json.mkObj [("wf", jBool wf), ("conserve", jBool conserve), ("ord_existing", jBool (!chk || ordExisting)),
     ("ord_inserted", jBool (!chk || ordInserted)), ("ord_after_prefix", jBool (!chk || ordAfterPrefix)),
     ("ord_before_suffix", jBool (!chk || ordBeforeSuffix))]
